@@ -1,0 +1,11 @@
+//go:build verif
+
+package storage
+
+// VerifResetGlobal resets the package state (build tag verif only).
+func VerifResetGlobal() {
+	mu.Lock()
+	defer mu.Unlock()
+	storage = nil
+	ready = make(chan struct{})
+}
